@@ -391,7 +391,7 @@ func HandleSendJoin(input HandleSendJoinInput) (*HandleSendJoinResponse, error) 
 	// the request. By this point we've already asserted that the sender
 	// and the state key are equal so we don't need to check both.
 	sender, err := input.UserIDQuerier(input.RoomID, event.SenderID())
-	if err != nil {
+	if err != nil || sender == nil {
 		return nil, spec.Forbidden("The sender of the join is invalid")
 	} else if sender.Domain() != input.RequestOrigin {
 		return nil, spec.Forbidden("The sender does not match the server that originated the request")
